@@ -141,6 +141,8 @@ def run(ctx):
     for o in ctx.own_of("c08"):
         if o["rule"] == "R08.3" and "classification-drives-index" in o["key"]:
             ctx._add(o["status"], "R10.3", o["key"].split("|", 1)[1], o["desc"] + " [an expiry stored by an upsert that is not registered is never swept]", o["where"], o["detail"])
+        if o["rule"] == "R08.2" and "classification-table" in o["key"]:
+            ctx._add(o["status"], "R10.3", o["key"].split("|", 1)[1], o["desc"] + " [a changed expiry classified as 'nothing' leaves the index entry under the old deadline: the sweep then removes a key that is not expired]", o["where"], o["detail"])
         if o["rule"] == "R08.9" and "response-reports-resulting-expiry" in o["key"]:
             ctx._add(o["status"], "R10.3", o["key"].split("|", 1)[1], o["desc"] + " [a made-up (old, new) expiry pair makes the index drop or keep the wrong entry: an expired key is then never swept]", o["where"], o["detail"])
 
